@@ -1242,6 +1242,19 @@ pub fn mixed(fmt: Fmt, r: &Recipe, lim: Limits) -> Case {
     }
 }
 
+/// The same mixture without the closest-approach table (used by the fuzz
+/// targets, where coverage feedback plays the role of that table).
+pub fn mixed_no_table(fmt: Fmt, r: &Recipe, lim: Limits) -> Case {
+    match pick_w(r.sel[0], &[45, 20, 9, 12, 6, 8]) {
+        0 => g_b(fmt, r, lim),
+        1 => g_a(fmt, r, lim),
+        2 => g_d(fmt, r),
+        3 => g_e(fmt, r),
+        4 => g_f(fmt, r, lim),
+        _ => g_g(fmt, r, lim),
+    }
+}
+
 /// Is the case valid per the parser's documented preconditions?
 pub fn is_valid(c: &Case) -> bool {
     c.int.iter().chain(c.frac.iter()).all(|b| b.is_ascii_digit()) && c.int.first() != Some(&b'0') && (c.frac.last() != Some(&b'0') || c.variant == "zero-significand")
